@@ -197,7 +197,7 @@ PRE_ACTION_C99 = ('vf_act(yy_act, yyget_text(yyscanner), (long)yyget_leng(yyscan
 def emit_spec(pack, render_kw=None, tables_name="vf_tables.h", driver="vf_driver.h", api="NR"):
     render_kw = render_kw or {}
     L = []
-    opts = ["noyywrap"] + [o for o in pack.options]
+    opts = ([] if "yywrap" in pack.options else ["noyywrap"]) + [o for o in pack.options if o != "yywrap"]
     if api == "C99":
         # emit must come first: it selects the back end the other options are interpreted for
         opts = ['emit="c99"'] + [o for o in opts if not o.startswith("emit")] + ["noyyread", "noyypanic"]
@@ -247,8 +247,11 @@ def emit_spec(pack, render_kw=None, tables_name="vf_tables.h", driver="vf_driver
     L.append("%%")
     L.append('#include "%s"' % tables_name)
     L.append('#include "refscan.h"')
-    L.append('#include "%s"' % driver)
+    L.append('#include "%s"' % getattr(pack, "driver", driver))
     return "\n".join(L) + "\n"
+
+
+DRIVER_TIME_LIMIT = int(os.environ.get("VERIF_DRIVER_S", "110" if os.environ.get("VERIF_TIER_NOW", "quick") == "quick" else "1500"))
 
 
 class BuildFailure(Exception):
@@ -284,10 +287,10 @@ def run_pack(flex, pack, workdir, name="s", flex_args=(), api="NR", defs=(), kno
     tables, stats, dfas, part, start = emit_tables(pack, knobs)
     tn = name + "_tables.h"
     with open(os.path.join(workdir, tn), "w") as f:
-        f.write(tables)
+        f.write(tables + getattr(pack, "extra_tables", ""))
     pack.cdefs = list(defs)
     pack.ops_per_action = (knobs or {}).get("VF_OPS_PER_ACTION", 1)
-    pack.no_user_init = "VF_BEGIN_OUTSIDE" in (knobs or {})
+    pack.no_user_init = "VF_BEGIN_OUTSIDE" in (knobs or {}) or getattr(pack, "driver", "") == "vf_bufdriver.h"
     spec = emit_spec(pack, render_kw, tables_name=tn, api=api)
     lpath = os.path.join(workdir, name + ".l")
     with open(lpath, "w") as f:
@@ -361,15 +364,21 @@ def run_groups_job(job):
     out = {"tag": job.get("tag"), "ngroups": len(job["groups"])}
     try:
         pack = Pack(job["groups"], job.get("options", ()), job.get("defs", ()), job.get("prologue", ""))
+        if job.get("driver"):
+            pack.driver = job["driver"]
+        pack.extra_tables = job.get("extra_tables", "")
         kw = dict(flex_args=job.get("flex_args", ()), api=job.get("api", "NR"), defs=job.get("cdefs", ()),
                   knobs=job.get("knobs"), san=job.get("san", False), render_kw=job.get("render_kw"),
-                  driver_args=job.get("driver_args", ()), timeout=job.get("timeout", 900))
+                  driver_args=list(job.get("driver_args", ())) + ["-T", str(int(job.get("time_limit", DRIVER_TIME_LIMIT)))],
+                  timeout=job.get("timeout", DRIVER_TIME_LIMIT + 120))
         try:
             res = run_pack(flex, pack, wd, **kw)
         except BuildFailure as e:
             out["build_failure"] = {"stage": e.stage, "rc": e.rc, "stderr": e.stderr[-3000:],
                                     "spec": _read(os.path.join(wd, "s.l"))}
             return out
+        if res["summary"] and res["summary"].get("timed_out"):
+            out["timed_out"] = True
         out.update(summary=res["summary"], rc=res["rc"], hard_error=res["hard_error"], stderr=res["stderr"][-2000:],
                    stats=res["stats"], flex_stderr=res["flex_stderr"][-2000:], wall=res["wall"])
         # flex warnings mapped back to groups through the line numbers of their rules
@@ -400,6 +409,9 @@ def run_groups_job(job):
                 owner = [g for g in job["groups"] if alone[0].enter in [c[0] for c in g.conds] or (g.rules and alone[0].enter == "INITIAL")]
                 alone = (owner[:1] or job["groups"][:1]) + alone
             single = Pack(alone, job.get("options", ()), job.get("defs", ()), job.get("prologue", ""))
+            if job.get("driver"):
+                single.driver = job["driver"]
+            single.extra_tables = job.get("extra_tables", "")
             try:
                 r2 = run_pack(flex, single, wd2, **kw)
                 v["confirmed"] = bool(r2["viols"]) or r2["summary"] is None
